@@ -4,8 +4,10 @@
     TypedArg< std::bitset< N>> and TypedArg< std::vector< bool>>
     (src/celma/prog_args/detail/typed_arg.hpp), the adapters of
     container_adapter.hpp / key_value_container_adapter.hpp (addValue,
-    contains, sort, clear), TypedArgBase::assignValue and the routing of free
-    values to the last multi-value argument (Handler::evalSingleArgument).
+    contains, sort, clear), TypedArgBase::assignValue, the format table
+    (TypedArgBase::mFormats, internAddFormat, format( val, idx), addFormat /
+    addFormatPos of the kinds) and the routing of free values to the last
+    multi-value argument (Handler::evalSingleArgument).
 
     The content of a destination is kept in the order in which the harness
     prints it (iteration order; stack / priority queue: pop order; unordered
